@@ -24,7 +24,8 @@ static void arena_free(void) { for (int i = 0; i < narena; i++) free(arena[i]); 
 static const char *SETNAMES[] = { "A", "FOO", "X_1", "path9", "v" };
 static const char *UNSETNAMES[] = { "NOPE", "U", "Q_q", "zz9" };
 static char longname_set[130], longname_unset[130];
-static const char *KEYS[] = { "k1", "k2", "kk", "zeta" };
+static const char *KEYS[] = { "k1", "k2", "kk", "zeta", "K1", "Zeta" };      /* two pairs differ only in letter case: distinct variables */
+#define NKEYS 6
 static int n_custom;                 /* registered customs in this case */
 static int has_dir_one, has_dir_many, has_dir_empty;
 
@@ -80,9 +81,9 @@ static void gen_args(cx_buf *b, int depth, int weak_allowed)
 static void gen_call(cx_buf *b, int depth, int weak_allowed)
 {
     int r = (int) vh_below(100);
-    if (r < 22) { cx_buf_adds(b, "%get("); cx_buf_adds(b, KEYS[vh_below(4)]); cx_buf_addc(b, ')'); }
+    if (r < 22) { cx_buf_adds(b, "%get("); cx_buf_adds(b, KEYS[vh_below(NKEYS)]); cx_buf_addc(b, ')'); }
     else if (r < 44) {
-        cx_buf_adds(b, "%put("); cx_buf_adds(b, KEYS[vh_below(4)]); cx_buf_addc(b, ' ');
+        cx_buf_adds(b, "%put("); cx_buf_adds(b, KEYS[vh_below(NKEYS)]); cx_buf_addc(b, ' ');
         int q = (int) vh_below(100);
         if (q < 60) gen_word(b);
         else if (q < 75 && depth < 3) gen_call(b, depth + 1, weak_allowed);
@@ -108,7 +109,7 @@ static void gen_call(cx_buf *b, int depth, int weak_allowed)
             if (k == 0) has_dir_one = 1; else if (k == 1) has_dir_many = 1; else if (k == 2) has_dir_empty = 1;
         }
     }
-    else { cx_buf_adds(b, "%get("); cx_buf_adds(b, KEYS[vh_below(4)]); cx_buf_addc(b, ')'); }
+    else { cx_buf_adds(b, "%get("); cx_buf_adds(b, KEYS[vh_below(NKEYS)]); cx_buf_addc(b, ')'); }
 }
 static void gen_sq(cx_buf *b)
 {
@@ -141,8 +142,15 @@ static void gen_dq(cx_buf *b, int weak_allowed)
 }
 static void gen_weak_token(cx_buf *b)
 {
-    int r = (int) vh_below(16);
+    int r = (int) vh_below(22);
     switch (r) {
+    /* proper prefixes of built-in names are not built-in calls: in particular they must never reach %exec */
+    case 16: cx_buf_adds(b, "%e(true)"); vh_count("builtin_name_prefix_tokens", 1); break;
+    case 17: cx_buf_adds(b, "%ex(true)"); vh_count("builtin_name_prefix_tokens", 1); break;
+    case 18: cx_buf_adds(b, "%exe(echo hi)"); vh_count("builtin_name_prefix_tokens", 1); break;
+    case 19: cx_buf_adds(b, "%g(k1)"); vh_count("builtin_name_prefix_tokens", 1); break;
+    case 20: cx_buf_adds(b, "%pu(k1 zz)"); vh_count("builtin_name_prefix_tokens", 1); break;
+    case 21: cx_buf_adds(b, "%EX(true)"); vh_count("builtin_name_prefix_tokens", 1); break;
     case 0: cx_buf_adds(b, "% "); break;
     case 1: cx_buf_adds(b, "%nosuch(x)"); break;
     case 2: cx_buf_adds(b, "%GET(k1)"); break;
